@@ -110,7 +110,7 @@ class EnfoldStream(Stream):
             b = names[i % len(names)]
             keys = keys_for(rng, b)
             init = [[k, 100 + j] for j, k in enumerate(rng.sample(keys, rng.randint(0, len(keys))))]
-            ops = storelib.gen_ops(rng, b, rng.randint(2, 10), keys, allow_bad=False, mut_share=0.65)
+            ops = storelib.gen_ops(rng, b, rng.randint(2, 10), keys, allow_bad=False, mut_share=0.65, readd=False)
             # no in-place modification of returned objects here: the cache store is a MemoryStorage, which hands out
             # the stored object itself (aliasing is C09's subject, not coherence)
             ops = [['get', o[1]] if o[0] == 'poke' else o for o in ops]
